@@ -202,7 +202,7 @@ def header_key():
     return h.hexdigest()
 
 
-def build_harness_bin(out_name, sources, tree="asan", extra_flags="", libs=""):
+def build_harness_bin(out_name, sources, tree="asan", extra_flags="", libs="", deps=()):
     """Compile a harness program against a tree; rebuilt when its sources or the repo headers change."""
     cfg = TREES[tree]
     hdir = os.path.join(BUILD, "harness-" + tree)
@@ -212,7 +212,7 @@ def build_harness_bin(out_name, sources, tree="asan", extra_flags="", libs=""):
         key = hashlib.sha1()
         key.update(header_key().encode())
         key.update((cfg["flags"] + extra_flags + libs + REPO).encode())
-        for s in sources:
+        for s in list(sources) + list(deps):
             with open(os.path.join(HARNESS, s), "rb") as f:
                 key.update(f.read())
         # the shared library itself is found at run time, but relink when it changed size (new symbols)
@@ -236,7 +236,9 @@ def ensure(tree="asan", bins=("vdrv",)):
     res = {}
     for b in bins:
         if b == "vdrv":
-            res[b] = build_harness_bin("vdrv", ["vdrv.cpp"], tree)
+            res[b] = build_harness_bin("vdrv", ["vdrv.cpp"], tree, deps=["vcommon.h"])
+        if b == "sched":
+            res[b] = build_harness_bin("sched", ["sched.cpp"], tree, deps=["vcommon.h"])
     return res
 
 
